@@ -17,7 +17,7 @@ def in_domain(c):
 
 
 def run(rep, model, tier, seed, broken=()):
-    ast_run(rep, model, tier, seed, "C02", "all-entries", 1, None, 300, 12000,
+    ast_run(rep, model, tier, seed, "C02", "all-entries", 1, None, 700, 12000,
             in_domain=in_domain,
             rule="nested-AST modules (function/macro bodies, if/foreach blocks, classes with members, tests "
                  "with sections, generic commands, set/option/add_test, cmake_parse_arguments, dangling "
